@@ -30,6 +30,16 @@ def _subst(node, mapping):
             if sa is not None and sa.get('k') in ('DeclRefExpr', 'MemberExpr'): return sa
             return {'k': 'ParenExpr', 'l': node.get('l'), 'sub': arg, 't': node.get('t')}
         out = {k: _subst(v, mapping) for k, v in node.items()}
+        if out.get('k') == 'CXXOperatorCallExpr' and out.get('oop') == '()' and out.get('args'):
+            # a callable parameter bound to a lambda whose body is a single `return E;` (a comparator handed to a shared helper):
+            # `comp(a, b)` is E with the lambda's parameters replaced by a and b
+            le = _lambda_of(out['args'][0]) if any(y.get('k') == 'DeclRefExpr' and y.get('id') in mapping for y in A.walk(node['args'][0])) else None
+            if le is not None and isinstance(le.get('params'), list) and len(le['params']) == len(out['args']) - 1:
+                b = le.get('body') or {}
+                st = [x for x in (b.get('c') or [])] if b.get('k') == 'CompoundStmt' else []
+                if len(st) == 1 and st[0].get('k') == 'ReturnStmt' and st[0].get('val') is not None:
+                    inner = {p_['id']: a for p_, a in zip(le['params'], out['args'][1:])}
+                    return {'k': 'ParenExpr', 'l': out.get('l'), 'sub': _subst(copy.deepcopy(st[0]['val']), inner), 't': out.get('t')}
         if out.get('k') == 'ConditionalOperator' and isinstance(out.get('cond'), dict):
             # `flag ? a : b` with a constant argument substituted for the parameter `flag` is the selected operand
             c = A.const(out['cond'])
